@@ -18,6 +18,13 @@ CLAIMED = {
    note="Does not decide cryptographic validity, nor that histories cannot make the guards hold spuriously; relies on C06 for the vote summary. Value shapes ignore intervening mutation of a field (stated limit).",
    technique="who-may-call/who-may-write + guard edge-dominance on SSA CFG with canonical value shapes + provenance of call arguments",
  ),
+ "C02": dict(
+   category="other",
+   text="Decides the single-writer / save-before-send / latch structure that makes a second signature in one (height, round) impossible in a process lifetime: one caller per Signer method; sign -> Save*Action(same signature, target (rlc.H, rlc.R, strategy hash)) -> send on the save's nil-error edge, carrying that signature; recording functions called only in the select case of their per-round channel, which is set nil on every continuing path; channels re-armed only by RoundLifecycle.Reset, itself called only for (H+1,0), (H,R+1) or the start-up position; action values sent only by the recorders or the start-up re-send of a stored action; *RoundLifecycle confined to one goroutine.",
+   design_ref="DESIGN.md §4 C02",
+   note="Across restarts the guarantee rests on the action store's refusal (C16.2) and the start-up proposal suppression; a custom Signer/ActionStore that misbehaves is out of scope.",
+   technique="who-may-call, dominance and guard edge-dominance on SSA, value-shape identity of signature/target, post-dominance of the latch store, who-may-write",
+ ),
  "C13": dict(
    category="other",
    text="Decides the code-shape conditions the merge laws rest on, for both shipped schemes: verify-before-set at every signature/bit write (and that no other function writes those fields), bounded fixed-width reads of key ids and encoded keys, clone independence field by field, clearing of AllValidSignatures on every rejecting edge, flag tests in the commit-proof finalizer. The algebraic laws themselves (union, idempotence, round trip) quantify over values and are not decided.",
